@@ -56,7 +56,8 @@ CLAIMS = {
     "C06": C("Proved: optimize() raises ValueError iff no configuration / workers <= 0 / unknown mode / objective-weight count mismatch, and "
              "before any cycle; every kernel function on the optimize path is free of implicit exceptions (index, unpack, None, divisor) under "
              "its precondition, in all three modes, including the element-wise sign flip of list objectives; validators raise iff the "
-             "documented condition - incl. Task.validate_objective_weights (raises iff some weight is negative; numpy's element-wise comparison "
+             "documented condition; a rejected optimize() call leaves the worker count positive (the object invariant the next call needs) - "
+             "incl. Task.validate_objective_weights (raises iff some weight is negative; numpy's element-wise comparison "
              "and np.all assumed) and the validate_bounds / constructors of the composite variables (length mismatch, inverted or equal bounds, "
              "n_vars <= 0). Bounded (labelled): exceptions inside the 84 optimizer bodies, keyed by (optimizer, exception, "
              "function) on continuous tasks and by (optimizer, encoding) on integer-coded tasks against the committed expectation.",
@@ -126,8 +127,10 @@ CLAIMS = {
              "r-th element is Dec(child r, x[off + r]) (loop invariant counter = off(task, j); the dict is represented by its insertion log; "
              "a scalar passed to a composite's decode - or a slice to a leaf's - fails a precondition). Bounded (law campaign over 30 "
              "variable mixes incl. size-1 multi-variables, single permutations and several tasks of one layout in one process): the "
-             "ghost part of the invariants (kids / vsize / child are what the constructors built), get_bounds of DiscreteMultiVariable / "
-             "BinaryVariable / PermutationVariable, lower <= upper, transform_solution on real tasks.",
+             "ghost part of the invariants (kids / vsize / child are what the constructors built), get_bounds of DiscreteMultiVariable, "
+             "lower <= upper on real tasks, transform_solution on real tasks. get_bounds of BinaryVariable ([0, 2 - eps] per bit) and of "
+             "PermutationVariable ([0, n - 1e-4] per item) are proved: one pair per coordinate, lower strictly below upper (np.zeros / "
+             "np.ones / scalar-array arithmetic assumed element-wise, real arithmetic).",
              NOTE_VC + "Object invariant of Task / Variable (task_wf, var_wf: the variable list and the children are the ones built by the "
              "constructors) is assumed at entry of the Task methods: the constructor part about space_dimension is proved, the package "
              "never writes these fields (EFF FRAME-cfg). Prefix-sum / segment lemmas are axioms (proved in lemmas/L2.lean). "
